@@ -73,6 +73,34 @@ pub fn check_merge(input: &[(u64, u64, bool)], output: &[(u64, u64, bool)]) -> O
     None
 }
 
+/// merge oracle for arbitrary sorted-by-start input (extents may overlap or nest): coverage and boundaries only
+pub fn check_merge_any(input: &[(u64, u64, bool)], output: &[(u64, u64, bool)]) -> Option<String> {
+    let maxend = input.iter().map(|i| i.1).max().unwrap_or(0);
+    for x in 0..maxend {
+        let in_input = input.iter().any(|i| i.0 <= x && x < i.1);
+        let in_output = output.iter().any(|o| o.0 <= x && x < o.1);
+        if in_input && !in_output {
+            return Some(format!("input byte {} is not covered by the merged ranges", x));
+        }
+        if in_output && !in_input {
+            // only a gap between two consecutive inputs that were merged together
+            let ok = (0..input.len().saturating_sub(1)).any(|k| input[k].1 <= x && x < input[k + 1].0 && output.iter().any(|o| o.0 <= input[k].0 && input[k + 1].1 <= o.1 && o.0 <= x && x < o.1));
+            if !ok {
+                return Some(format!("merged ranges cover byte {} which is neither input nor a gap between merged neighbours", x));
+            }
+        }
+    }
+    for o in output {
+        if !input.iter().any(|i| i.0 == o.0) || !input.iter().any(|i| i.1 == o.1) {
+            return Some(format!("merged range {}-{} does not begin and end at input boundaries", o.0, o.1));
+        }
+        if o.1 > maxend {
+            return Some(format!("merged range {}-{} extends past every input", o.0, o.1));
+        }
+    }
+    None
+}
+
 /// a map of a real file: ordered, non-overlapping (empty ranges allowed), every byte outside reads zero
 pub fn check_map(what: &str, ranges: &[(u64, u64, bool)], data: &[u8]) -> Option<String> {
     for w in ranges.windows(2) {
@@ -301,6 +329,39 @@ pub fn run(ctx: &Ctx) -> Report {
             Ok(out) => rep.machinery_errors.push(format!("apiprobe merge-all failed: {}", String::from_utf8_lossy(&out.stderr))),
             Err(e) => rep.machinery_errors.push(format!("apiprobe: {}", e)),
         }
+    }
+    // (a') lists that are only sorted by start: touching, overlapping and nested extents
+    {
+        let (uu, ml) = if q { (7, 4) } else { (9, 4) };
+        match std::process::Command::new(&ctx.pool.bins.apiprobe).args(["merge-any", &uu.to_string(), &ml.to_string()]).output() {
+            Ok(out) if out.status.success() => {
+                for l in String::from_utf8_lossy(&out.stdout).lines() {
+                    if l.starts_with("lists ") {
+                        continue;
+                    }
+                    let (a, b) = match l.split_once(" => ") {
+                        Some(x) => x,
+                        None => (l.trim_end_matches(" =>"), ""),
+                    };
+                    evals += 1;
+                    if b.starts_with("error") {
+                        rep.plain_violations.push((format!("merge_extents failed on [{}]: {}", a, b), json!({"input": a})));
+                        continue;
+                    }
+                    if let (Ok(i), Ok(o)) = (parse_ranges(a), parse_ranges(b)) {
+                        if i.len() >= 2 {
+                            nontrivial += 1;
+                        }
+                        if let Some(msg) = check_merge_any(&i, &o) {
+                            rep.plain_violations.push((format!("merge_extents([{}]) = [{}]: {}", a, b, msg), json!({"input": a, "output": b})));
+                        }
+                    }
+                }
+            }
+            Ok(out) => rep.machinery_errors.push(format!("apiprobe merge-any failed: {}", String::from_utf8_lossy(&out.stderr))),
+            Err(e) => rep.machinery_errors.push(format!("apiprobe: {}", e)),
+        }
+        rep.extra.insert("merge_any_universe".into(), json!({"U": uu, "max_extents": ml}));
     }
     // (b) real files
     let mut jobs: Vec<FileJob> = vec![];
